@@ -22,4 +22,6 @@ def zeroCost (cost : Rat) : Bool := (decide (cost = (0 : Rat)))
 
 def zeroCostTaken (profit : Rat) : Bool := (decide (profit > (0 : Rat)))
 
+def knapsackItem (profit : Rat) : Bool := (decide (profit ≥ (0 : Rat)))
+
 end Gen.C04
